@@ -237,29 +237,38 @@ Section Interval.
     exact (proj1 (Z.divide_abs_r B sig) E).
   Qed.
 
+  (** HalfEven after the repair of F05: the code's tie flag is the parity of the p-digit significand *)
+  Lemma incl_even : negb (Z.odd sig) || ((B mod 2 =? 0) && (dg <? p)) = Z.even (a * B ^ (p - dg)).
+  Proof.
+    pose proof dg_range as Hr. rewrite Z.even_mul. unfold a at 1.
+    assert (Ea : Z.even (Z.abs sig) = Z.even sig) by (destruct (Z.abs_eq_or_opp sig) as [->| ->]; rewrite ?Z.even_opp; reflexivity).
+    rewrite Ea, Z.negb_odd. f_equal.
+    destruct (Z.ltb_spec dg p) as [H|H].
+    - rewrite Z.even_pow by lia. rewrite Zmod_even. destruct (Z.even B); reflexivity.
+    - replace (p - dg) with 0 by lia. rewrite Z.pow_0_r. rewrite Bool.andb_false_r. reflexivity.
+  Qed.
+
   Theorem interval_asis_spec : forall md, known_float B md p sig = false ->
     match error_bounds_asis B md p sig ex with
     | Ok (l, r, il, ir) => (freduce (fsub v l), freduce (fadd v r), il, ir) = float_interval_spec B md p sig ex
     | _ => False
     end.
   Proof.
-    intros md Hk. unfold known_float, known_unlimited, known_oddbase, known_halfeven, known_powbase in Hk.
+    intros md Hk. unfold known_float, known_oddbase, known_powbase in Hk.
     assert (Hp0 : (p =? 0) = false) by (apply Z.eqb_neq; lia).
     rewrite Hp0 in Hk. cbn [negb andb orb] in Hk.
     assert (Hodd : is_half md = true -> Z.odd B = false).
     { intros Hh. rewrite Hh in Hk. cbn [andb orb] in Hk. destruct (Z.odd B); [discriminate|reflexivity]. }
-    assert (Hhe : is_halfeven md = false).
-    { destruct (is_halfeven md); [|reflexivity]. rewrite Bool.orb_true_r in Hk. discriminate. }
     clear Hk.
     pose proof pw_false as Hpw. pose proof v_pos as Hv. pose proof ulp_pos as Hu. pose proof half_pos as Hh.
     pose proof ulp_units as Uu. pose proof half_units as Uh. pose proof (uval_zero B t) as Uz.
     unfold error_bounds_asis, float_interval_spec. rewrite Hp0. cbv zeta. fold a. fold dg. rewrite Hpw.
-    fold ulp half v.
+    fold ulp half v. rewrite ?incl_even.
     replace (ex + dg - p - 1) with t by reflexivity.
     fold c.
     destruct (Z.ltb_spec sig 0) as [Hneg|Hpos].
     - pose proof (c_neg_sig Hneg) as Hc.
-      destruct md; cbn [is_half is_halfeven] in *; try discriminate.
+      destruct md; cbn [is_half] in *; try discriminate.
       + (* Zero *) rewrite !neg_end. apply tuple4_eq.
         * apply (end_sub ulp B); [exact Hu|exact Uu|lia].
         * apply (end_add (0, 1) 0); [cbn [snd]; lia|exact Uz|lia].
@@ -272,13 +281,18 @@ Section Interval.
       + (* Down *) rewrite !neg_end. apply tuple4_eq.
         * apply (end_sub (0, 1) 0); [cbn [snd]; lia|exact Uz|lia].
         * apply (end_add ulp B); [exact Hu|exact Uu|lia].
+      + (* HalfEven *) pose proof (half_even_base B (Hodd eq_refl)) as HBh.
+        assert (HU : 2 * B / 2 = B) by (rewrite Z.mul_comm; apply Z.div_mul; lia). rewrite !HU.
+        rewrite !neg_end. apply tuple4_eq.
+        * apply (end_sub half ((B + 1) / 2)); [exact Hh|exact Uh|lia].
+        * apply (end_add half ((B + 1) / 2)); [exact Hh|exact Uh|lia].
       + (* HalfAway *) pose proof (half_even_base B (Hodd eq_refl)) as HBh.
         assert (HU : 2 * B / 2 = B) by (rewrite Z.mul_comm; apply Z.div_mul; lia). rewrite !HU.
         rewrite !neg_end. apply tuple4_eq.
         * apply (end_sub half ((B + 1) / 2)); [exact Hh|exact Uh|lia].
         * apply (end_add half ((B + 1) / 2)); [exact Hh|exact Uh|lia].
     - pose proof (c_pos_sig Hpos) as Hc.
-      destruct md; cbn [is_half is_halfeven] in *; try discriminate.
+      destruct md; cbn [is_half] in *; try discriminate.
       + apply tuple4_eq.
         * apply (end_sub (0, 1) 0); [cbn [snd]; lia|exact Uz|lia].
         * apply (end_add ulp B); [exact Hu|exact Uu|lia].
@@ -291,6 +305,11 @@ Section Interval.
       + apply tuple4_eq.
         * apply (end_sub (0, 1) 0); [cbn [snd]; lia|exact Uz|lia].
         * apply (end_add ulp B); [exact Hu|exact Uu|lia].
+      + pose proof (half_even_base B (Hodd eq_refl)) as HBh.
+        assert (HU : 2 * B / 2 = B) by (rewrite Z.mul_comm; apply Z.div_mul; lia). rewrite !HU.
+        apply tuple4_eq.
+        * apply (end_sub half ((B + 1) / 2)); [exact Hh|exact Uh|lia].
+        * apply (end_add half ((B + 1) / 2)); [exact Hh|exact Uh|lia].
       + pose proof (half_even_base B (Hodd eq_refl)) as HBh.
         assert (HU : 2 * B / 2 = B) by (rewrite Z.mul_comm; apply Z.div_mul; lia). rewrite !HU.
         apply tuple4_eq.
@@ -318,8 +337,8 @@ Proof.
   rewrite H. destruct (simplest_closed _); reflexivity.
 Qed.
 
-(** unlimited precision (0): the modes whose error_bounds follow the trait's contract return the
-    float itself (as a canonical fraction) *)
+(** unlimited precision (0): after the repair of F08 every mode's error_bounds follows the trait's
+    contract and the code returns the float itself (as a canonical fraction) - no finding class left *)
 Lemma fsub_zero : forall x, canon x -> freduce (fsub x (0, 1)) = x /\ freduce (fadd x (0, 1)) = x.
 Proof.
   intros [n d] (Hd & Hg). cbn [fst snd] in *. unfold fsub, fadd. cbn [fst snd].
@@ -327,13 +346,10 @@ Proof.
   split; apply freduce_coprime; exact Hg.
 Qed.
 
-Theorem simplest_from_float_asis_spec_unlimited : forall B md sig ex, 2 <= B -> sig mod B <> 0 ->
-  known_float B md 0 sig = false ->
+Theorem simplest_from_float_asis_spec_unlimited_all : forall B md sig ex, 2 <= B -> sig mod B <> 0 ->
   simplest_from_float_asis B md 0 sig ex = simplest_from_float_spec B md 0 sig ex.
 Proof.
-  intros B md sig ex HB Hnorm Hk.
-  assert (Hc : calls_ulp md = false).
-  { unfold known_float, known_unlimited in Hk. cbn [Z.eqb andb] in Hk. destruct (calls_ulp md); [discriminate|reflexivity]. }
+  intros B md sig ex HB Hnorm.
   rewrite simplest_from_float_asis_closed by lia. rewrite (fnormalize_id B sig ex Hnorm).
   unfold simplest_from_float_spec, float_interval_spec.
   assert (Hs : (sig =? 0) = false) by (apply Z.eqb_neq; intros ->; apply Hnorm; apply Z.mod_0_l; lia). rewrite Hs.
@@ -341,11 +357,22 @@ Proof.
   pose proof (scaled_canon B sig ex 1 ltac:(lia) ltac:(lia)) as Cv.
   destruct (fsub_zero _ Cv) as (E1 & E2).
   unfold error_bounds_asis. cbn [Z.eqb].
-  destruct md; cbn [calls_ulp] in Hc; try discriminate; rewrite E1, E2; destruct (simplest_closed _); reflexivity.
+  destruct md; rewrite E1, E2; destruct (simplest_closed _); reflexivity.
 Qed.
+
+Theorem simplest_from_float_asis_spec_unlimited : forall B md sig ex, 2 <= B -> sig mod B <> 0 ->
+  known_float B md 0 sig = false ->
+  simplest_from_float_asis B md 0 sig ex = simplest_from_float_spec B md 0 sig ex.
+Proof. intros B md sig ex HB Hn _. apply simplest_from_float_asis_spec_unlimited_all; assumption. Qed.
+
+Example simplest_from_float_unlimited_nonvacuous :
+  simplest_from_float_asis 10 MUp 0 (-123) (-1) = Ok (Some (-123, 10)) /\ simplest_from_float_asis 3 MDown 0 7 2 = Ok (Some (63, 1)).
+Proof. split; vm_compute; reflexivity. Qed.
 
 Example simplest_from_float_asis_spec_nonvacuous :
   known_float 10 MHalfAway 3 133 = false /\ 133 mod 10 <> 0 /\ ndigits 10 133 <= 3 /\
   simplest_from_float_asis 10 MHalfAway 3 133 (-2) = Ok (Some (4, 3)) /\
-  known_float 7 MDown 2 (-9) = false /\ simplest_from_float_asis 7 MDown 2 (-9) 0 = Ok (Some (-9, 1)).
+  known_float 7 MDown 2 (-9) = false /\ simplest_from_float_asis 7 MDown 2 (-9) 0 = Ok (Some (-9, 1)) /\
+  known_float 2 MHalfEven 3 5 = false /\ simplest_from_float_asis 2 MHalfEven 3 5 1 = Ok (Some (10, 1)) /\
+  known_float 10 MHalfEven 4 15 = false /\ simplest_from_float_asis 10 MHalfEven 4 15 (-1) = Ok (Some (3, 2)).
 Proof. repeat split; try (vm_compute; reflexivity); vm_compute; discriminate. Qed.
